@@ -17,8 +17,7 @@ struct is_swappable : is_swappable_with<add_lvalue_reference_t<T>, add_lvalue_re
 
 // clang-format on
 
-template <typename T>
-inline constexpr bool is_swappable_v = is_swappable<T>::value;
+// is_swappable_v is defined in is_swappable_with.hpp (needed by the forward declaration of the array swap)
 
 } // namespace etl
 
